@@ -123,4 +123,29 @@ theorem C18_valid_uses_ast (lower : String → String) (st : Index) (f : Path) (
   rw [hc]
   simp only [hp]
 
+/-- **C18 (handler: what a signature or body completion offers).** The labels are exactly the names of the per-file
+    view that `excluded` lets through, where the "function being edited" is handed to the filter ONLY when that function
+    is a fixture: a test function named like a visible fixture is offered that fixture like any other name. -/
+theorem C18_offered_in_function (lower : String → String) (st : Index) (f : Path) (line0 : Nat) (comma : Bool)
+    (fn : String) (fnLine : Nat) (isFx : Bool) (declared : List String) (scope : Option Scope)
+    (h : st.completionContext lower f line0 = some (.signature fn fnLine isFx declared scope) ∨
+         st.completionContext lower f line0 = some (.body fn fnLine isFx declared scope)) :
+    ((hCompletion lower st f line0 comma).1.map (fun l => l.map (·.label))) =
+      some (((st.availableSt f).1.filter
+        (fun d => !excluded d (some declared) (if isFx then some fn else none) scope)).map (·.name)) := by
+  unfold hCompletion
+  rcases h with h | h <;> rw [h] <;> simp [List.map_map, Function.comp_def]
+
+/-- the filter a TEST function's completion applies never looks at the function's own name -/
+theorem C18_test_not_self_excluded (d : Def) (declared : List String) (fn : String) (scope : Option Scope) :
+    excluded d (some declared) (if false then some fn else none) scope =
+      (Generated.excludedParamNames.contains d.name || declared.contains d.name ||
+       (match scope with | some s => decide (d.scope < s) | none => false)) := by
+  cases scope <;> simp [excluded]
+
+/-- … while a fixture's does: its own name is withheld -/
+theorem C18_fixture_self_excluded (d : Def) (declared : List String) (scope : Option Scope) :
+    excluded d (some declared) (if true then some d.name else none) scope = true := by
+  simp [excluded]
+
 end PLS
